@@ -5,5 +5,5 @@ for n in 1 2; do
   [ -d $rd/out/$p/$n ] || continue
   python3 /verif/tools/confirm_seed.py $rd/out/$p/$n | grep -E '"(confirmed|existing_tests|demo_with_change|demo_without_change)"' | tr -d '\n'; echo
 done
-suffix=b; [[ $rd == *seed3* ]] && suffix=c; [[ $rd == *seed4* ]] && suffix=d; [[ $rd == *seed5* ]] && suffix=e; [[ $rd == *seed6* ]] && suffix=f; [[ $rd == *seed7* ]] && suffix=g; [[ $rd == *seed8* ]] && suffix=h; [[ $rd == *seed9* ]] && suffix=i; [[ $rd == *seed10* ]] && suffix=j; [[ $rd == *seed11* ]] && suffix=k
+suffix=b; [[ $rd == *seed3* ]] && suffix=c; [[ $rd == *seed4* ]] && suffix=d; [[ $rd == *seed5* ]] && suffix=e; [[ $rd == *seed6* ]] && suffix=f; [[ $rd == *seed7* ]] && suffix=g; [[ $rd == *seed8* ]] && suffix=h; [[ $rd == *seed9* ]] && suffix=i; [[ $rd == *seed10* ]] && suffix=j; [[ $rd == *seed11* ]] && suffix=k; [[ $rd == *seed12* ]] && suffix=l
 python3 /verif/tools/recheck_seeds.py $p-$suffix | grep "^$p-$suffix"
